@@ -103,6 +103,19 @@ def sweep(s, ro, state_xml, ctx=None, after=None):
         else:
             s.other['%s:accessor-disagrees:%s.%s' % (f['prop'], f['cls'], f['name'])] += 1
     s.evaluations += 1
+    if s.hist['acc_samples'] < 2 and s.evaluations % 11 == 3 and stories:
+        try:
+            st0 = stories[0]
+            s.hist['acc_samples'] += 1
+            s.samples.insert(0, {'state_class': repr(state_class(state_xml)), 'after_message': after,
+                              'accessor_calls_at_this_state': calls,
+                              'ro.duration': repr(ro.duration), 'ro.start_time': repr(ro.start_time),
+                              'ro.end_time': repr(ro.end_time), 'ro.script[:3]': ro.script[:3],
+                              'stories': [(x.id, x.duration, x.offset) for x in stories[:5]],
+                              'story0.body[:4]': [b if isinstance(b, str) else 'Item(%s)' % b.id for b in st0.body[:4]],
+                              'xml': state_xml[:500]})
+        except Exception:
+            pass
     try:
         s.note_sig(('state', state_class(state_xml), after))
     except ET.ParseError:
